@@ -42,10 +42,11 @@ pub struct MStyle {
 
 pub const M_DEFAULT: MStyle = MStyle { fg: MColor::Default, bg: MColor::Default, ul: MColor::Default, eff: 0 };
 
-pub const MAXP: usize = 32;
+pub const MAXP: usize = 8;
 
 /// One CSI parameter list: values, and for each value whether it is attached
-/// to the previous one by ':' (a sub-parameter).
+/// to the previous one by ':' (a sub-parameter).  (MAXP = 8 values: enough for every
+/// list the harnesses build or the crate renders; longer lists are classified Open.)
 #[derive(Copy, Clone)]
 pub struct MParams {
     pub vals: [u16; MAXP],
@@ -74,176 +75,145 @@ fn set_color(s: &mut MStyle, target: u16, c: MColor) {
     }
 }
 
-/// Apply one SGR parameter list to a style.  Returns the class; when `Open`
-/// the returned style is meaningless.
-///
-/// `unsupported(code)`: single codes outside the statement of property C07
-/// (5, 6, 22-29, 59 ...) are classified Open by the *callers that check the
-/// extractor*; the rendering round-trip (C05) never emits them.
-pub fn sgr_apply(style: MStyle, p: &MParams) -> (MStyle, Spec) {
+fn underline_bit(k: u16) -> Option<u16> {
+    if k == 0 { Some(0) } else if k == 1 { Some(E_UNDERLINE) } else if k == 2 { Some(E_DOUBLE_UNDERLINE) }
+    else if k == 3 { Some(E_CURLY_UNDERLINE) } else if k == 4 { Some(E_DOTTED_UNDERLINE) }
+    else if k == 5 { Some(E_DASHED_UNDERLINE) } else { None }
+}
+
+/// set the underline kind; `additive`: independent bits (rendering round-trip, C05), otherwise
+/// only defined when no *other* kind is set (single-valued attribute of a terminal vs. independent
+/// bits of anstyle: only the intersection of both readings is specified)
+fn set_underline(s: &mut MStyle, target: u16, additive: bool) -> bool {
+    if additive {
+        if target == 0 { s.eff &= !E_ALL_UNDERLINES; } else { s.eff |= target; }
+        return true;
+    }
+    if s.eff & E_ALL_UNDERLINES & !target != 0 {
+        return false;
+    }
+    s.eff = (s.eff & !E_ALL_UNDERLINES) | target;
+    true
+}
+
+fn single_code(s: &mut MStyle, v: u16, additive: bool) -> bool {
+    if v == 0 { *s = M_DEFAULT; }
+    else if v == 1 { s.eff |= E_BOLD; }
+    else if v == 2 { s.eff |= E_DIMMED; }
+    else if v == 3 { s.eff |= E_ITALIC; }
+    else if v == 21 { return set_underline(s, E_DOUBLE_UNDERLINE, additive); }
+    else if v == 5 { s.eff |= E_BLINK; }
+    else if v == 7 { s.eff |= E_INVERT; }
+    else if v == 8 { s.eff |= E_HIDDEN; }
+    else if v == 9 { s.eff |= E_STRIKETHROUGH; }
+    else if v == 22 { s.eff &= !(E_BOLD | E_DIMMED); }
+    else if v == 23 { s.eff &= !E_ITALIC; }
+    else if v == 24 { s.eff &= !E_ALL_UNDERLINES; }
+    else if v == 25 { s.eff &= !E_BLINK; }
+    else if v == 27 { s.eff &= !E_INVERT; }
+    else if v == 28 { s.eff &= !E_HIDDEN; }
+    else if v == 29 { s.eff &= !E_STRIKETHROUGH; }
+    else if 30 <= v && v <= 37 { s.fg = MColor::Ansi((v - 30) as u8); }
+    else if v == 39 { s.fg = MColor::Default; }
+    else if 40 <= v && v <= 47 { s.bg = MColor::Ansi((v - 40) as u8); }
+    else if v == 49 { s.bg = MColor::Default; }
+    else if v == 59 { s.ul = MColor::Default; }
+    else if 90 <= v && v <= 97 { s.fg = MColor::Ansi((v - 90 + 8) as u8); }
+    else if 100 <= v && v <= 107 { s.bg = MColor::Ansi((v - 100 + 8) as u8); }
+    // every other code (fonts 10-20, 6 rapid blink, 26, 50-57, 60-65, 73-75, >107 ...)
+    // has no representation in the style type: changes nothing
+    true
+}
+
+// group-parser positions (a flat scan: one pass over the values)
+const G_NORMAL: u8 = 0;
+const G_UNDER: u8 = 1; // seen `4`, waiting for an optional `:n`
+const G_SUBDONE: u8 = 2; // a ':'-group is complete: another ':' value would be outside the standards
+const G_EXT: u8 = 3; // seen 38/48/58, waiting for 5 or 2
+const G_EXT5: u8 = 4; // waiting for the index
+const G_EXT2: u8 = 5; // waiting for r, g, b
+
+/// Apply one SGR parameter list to a style.  Returns the class; when `Open` the returned
+/// style is meaningless.
+pub fn sgr_apply_mode(style: MStyle, p: &MParams, additive: bool) -> (MStyle, Spec) {
     let mut s = style;
     if p.n == 0 {
         // CSI m == CSI 0 m
         return (M_DEFAULT, Spec::Defined);
     }
+    if p.n > MAXP {
+        return (s, Spec::Open);
+    }
+    let mut g = G_NORMAL;
+    let mut target: u16 = 0;
+    let mut colon_form = false;
+    let mut rgb = [0u16; 3];
+    let mut k = 0usize;
     let mut i = 0;
-    while i < p.n {
-        let v = p.vals[i];
-        if p.colon[i] {
-            // stray sub-parameter without a leading code
-            return (s, Spec::Open);
-        }
-        // sub-parameters attached with ':'
-        let mut j = i + 1;
-        while j < p.n && p.colon[j] {
-            j += 1;
-        }
-        let nsub = j - i - 1;
-        if nsub > 0 {
-            if v == 4 {
-                if nsub != 1 {
+    while i < MAXP {
+        if i < p.n {
+            let v = p.vals[i];
+            let c = p.colon[i];
+            // close what a ';' closes
+            if g == G_UNDER && !c {
+                if !set_underline(&mut s, E_UNDERLINE, additive) { return (s, Spec::Open); }
+                g = G_NORMAL;
+            }
+            if g == G_SUBDONE {
+                if c { return (s, Spec::Open); }
+                g = G_NORMAL;
+            }
+            if g == G_NORMAL {
+                if c {
+                    // stray sub-parameter without a leading code
                     return (s, Spec::Open);
                 }
-                let k = p.vals[i + 1];
-                // entry state must not hold another underline kind (single-valued
-                // attribute in a terminal, independent bits in anstyle: only the
-                // intersection of both readings is specified)
-                let target = if k == 0 { 0 } else if k == 1 { E_UNDERLINE } else if k == 2 { E_DOUBLE_UNDERLINE }
-                    else if k == 3 { E_CURLY_UNDERLINE } else if k == 4 { E_DOTTED_UNDERLINE }
-                    else if k == 5 { E_DASHED_UNDERLINE } else { return (s, Spec::Open) };
-                if s.eff & E_ALL_UNDERLINES & !target != 0 {
+                if v == 38 || v == 48 || v == 58 {
+                    target = v;
+                    g = G_EXT;
+                } else if v == 4 {
+                    g = G_UNDER;
+                } else if !single_code(&mut s, v, additive) {
                     return (s, Spec::Open);
                 }
-                s.eff = (s.eff & !E_ALL_UNDERLINES) | target;
-            } else if v == 38 || v == 48 || v == 58 {
-                let kind = p.vals[i + 1];
-                if kind == 5 && nsub == 2 {
-                    if p.vals[i + 2] > 255 {
-                        return (s, Spec::Open);
-                    }
-                    set_color(&mut s, v, MColor::Idx(p.vals[i + 2] as u8));
-                } else if kind == 2 && nsub == 4 {
-                    if p.vals[i + 2] > 255 || p.vals[i + 3] > 255 || p.vals[i + 4] > 255 {
-                        return (s, Spec::Open);
-                    }
-                    set_color(&mut s, v, MColor::Rgb(p.vals[i + 2] as u8, p.vals[i + 3] as u8, p.vals[i + 4] as u8));
-                } else {
-                    // T.416 with colour-space id, CMY, transparent ...: not fixed here
-                    return (s, Spec::Open);
+            } else if g == G_UNDER {
+                // here c is true: `4:n`
+                match underline_bit(v) {
+                    Some(t) => { if !set_underline(&mut s, t, additive) { return (s, Spec::Open); } }
+                    None => return (s, Spec::Open),
                 }
+                g = G_SUBDONE;
+            } else if g == G_EXT {
+                colon_form = c;
+                if v == 5 { g = G_EXT5; } else if v == 2 { g = G_EXT2; k = 0; } else { return (s, Spec::Open); }
+            } else if g == G_EXT5 {
+                if c != colon_form || v > 255 { return (s, Spec::Open); }
+                set_color(&mut s, target, MColor::Idx(v as u8));
+                g = if colon_form { G_SUBDONE } else { G_NORMAL };
             } else {
-                return (s, Spec::Open);
-            }
-            i = j;
-            continue;
-        }
-        // plain code (';' separated)
-        if v == 38 || v == 48 || v == 58 {
-            // xterm's legacy ';' spelling: 38;5;n  /  38;2;r;g;b
-            if i + 1 >= p.n || p.colon[i + 1] {
-                return (s, Spec::Open);
-            }
-            let kind = p.vals[i + 1];
-            if kind == 5 {
-                if i + 2 >= p.n || p.colon[i + 2] || (i + 3 < p.n && p.colon[i + 3]) || p.vals[i + 2] > 255 {
-                    return (s, Spec::Open);
+                // G_EXT2
+                if c != colon_form || v > 255 { return (s, Spec::Open); }
+                rgb[k] = v;
+                k += 1;
+                if k == 3 {
+                    set_color(&mut s, target, MColor::Rgb(rgb[0] as u8, rgb[1] as u8, rgb[2] as u8));
+                    g = if colon_form { G_SUBDONE } else { G_NORMAL };
                 }
-                set_color(&mut s, v, MColor::Idx(p.vals[i + 2] as u8));
-                i += 3;
-            } else if kind == 2 {
-                if i + 4 >= p.n || p.colon[i + 2] || p.colon[i + 3] || p.colon[i + 4] || (i + 5 < p.n && p.colon[i + 5])
-                    || p.vals[i + 2] > 255 || p.vals[i + 3] > 255 || p.vals[i + 4] > 255
-                {
-                    return (s, Spec::Open);
-                }
-                set_color(&mut s, v, MColor::Rgb(p.vals[i + 2] as u8, p.vals[i + 3] as u8, p.vals[i + 4] as u8));
-                i += 5;
-            } else {
-                return (s, Spec::Open);
             }
-            continue;
-        }
-        if v == 0 {
-            s = M_DEFAULT;
-        } else if v == 1 {
-            s.eff |= E_BOLD;
-        } else if v == 2 {
-            s.eff |= E_DIMMED;
-        } else if v == 3 {
-            s.eff |= E_ITALIC;
-        } else if v == 4 {
-            if s.eff & E_ALL_UNDERLINES & !E_UNDERLINE != 0 {
-                return (s, Spec::Open);
-            }
-            s.eff |= E_UNDERLINE;
-        } else if v == 21 {
-            if s.eff & E_ALL_UNDERLINES & !E_DOUBLE_UNDERLINE != 0 {
-                return (s, Spec::Open);
-            }
-            s.eff |= E_DOUBLE_UNDERLINE;
-        } else if v == 5 {
-            s.eff |= E_BLINK;
-        } else if v == 7 {
-            s.eff |= E_INVERT;
-        } else if v == 8 {
-            s.eff |= E_HIDDEN;
-        } else if v == 9 {
-            s.eff |= E_STRIKETHROUGH;
-        } else if v == 22 {
-            s.eff &= !(E_BOLD | E_DIMMED);
-        } else if v == 23 {
-            s.eff &= !E_ITALIC;
-        } else if v == 24 {
-            s.eff &= !E_ALL_UNDERLINES;
-        } else if v == 25 {
-            s.eff &= !E_BLINK;
-        } else if v == 27 {
-            s.eff &= !E_INVERT;
-        } else if v == 28 {
-            s.eff &= !E_HIDDEN;
-        } else if v == 29 {
-            s.eff &= !E_STRIKETHROUGH;
-        } else if 30 <= v && v <= 37 {
-            s.fg = MColor::Ansi((v - 30) as u8);
-        } else if v == 39 {
-            s.fg = MColor::Default;
-        } else if 40 <= v && v <= 47 {
-            s.bg = MColor::Ansi((v - 40) as u8);
-        } else if v == 49 {
-            s.bg = MColor::Default;
-        } else if v == 59 {
-            s.ul = MColor::Default;
-        } else if 90 <= v && v <= 97 {
-            s.fg = MColor::Ansi((v - 90 + 8) as u8);
-        } else if 100 <= v && v <= 107 {
-            s.bg = MColor::Ansi((v - 100 + 8) as u8);
-        } else {
-            // every other code (fonts 10-20, 6 rapid blink, 26, 50-57, 60-65, 73-75, >107 ...)
-            // has no representation in the style type: changes nothing
         }
         i += 1;
+    }
+    if g == G_UNDER {
+        if !set_underline(&mut s, E_UNDERLINE, additive) { return (s, Spec::Open); }
+    } else if g == G_EXT || g == G_EXT5 || g == G_EXT2 {
+        // incomplete extended-colour group
+        return (s, Spec::Open);
     }
     (s, Spec::Defined)
 }
 
-/// Relaxed variant for the rendering round-trip (C05): underline kinds are
-/// independent bits (each code sets its own bit), the only reading under which
-/// all 4096 effect sets can round-trip.
-pub fn sgr_apply_additive(style: MStyle, p: &MParams) -> (MStyle, Spec) {
-    // a list that is a single underline code is handled additively, everything else as above
-    if p.n == 1 && !p.colon[0] && (p.vals[0] == 4 || p.vals[0] == 21) {
-        let mut s = style;
-        s.eff |= if p.vals[0] == 4 { E_UNDERLINE } else { E_DOUBLE_UNDERLINE };
-        return (s, Spec::Defined);
-    }
-    if p.n == 2 && !p.colon[0] && p.colon[1] && p.vals[0] == 4 && 1 <= p.vals[1] && p.vals[1] <= 5 {
-        let mut s = style;
-        let k = p.vals[1];
-        s.eff |= if k == 1 { E_UNDERLINE } else if k == 2 { E_DOUBLE_UNDERLINE } else if k == 3 { E_CURLY_UNDERLINE }
-            else if k == 4 { E_DOTTED_UNDERLINE } else { E_DASHED_UNDERLINE };
-        return (s, Spec::Defined);
-    }
-    sgr_apply(style, p)
+pub fn sgr_apply(style: MStyle, p: &MParams) -> (MStyle, Spec) {
+    sgr_apply_mode(style, p, false)
 }
 
 /// Result of interpreting a byte string that must consist solely of SGR sequences.
@@ -257,68 +227,62 @@ pub enum Pure {
     Open,
 }
 
-/// Interpret `bytes[..len]` from `start`.  Grammar accepted as "pure SGR":
+/// Interpret `bytes[..len]` from `start` (one flat pass).  Grammar accepted as "pure SGR":
 ///   ( ESC '[' [0-9;:]* 'm' )*
-/// Values saturate at 65535 like every VT parser; at most 32 values per list.
+/// Values saturate at 65535 like every VT parser.
 pub fn sgr_bytes(start: MStyle, bytes: &[u8], len: usize, additive: bool) -> Pure {
     let mut s = start;
-    let mut i = 0;
     let mut open = false;
-    while i < len {
-        if bytes[i] != 0x1b {
-            return Pure::NotPureSgr;
-        }
-        i += 1;
-        if i >= len || bytes[i] != b'[' {
-            return Pure::NotPureSgr;
-        }
-        i += 1;
-        let mut p = M_NOPARAMS;
-        let mut cur: u16 = 0;
-        let mut any = false;
-        let mut next_colon = false;
-        loop {
-            if i >= len {
-                return Pure::NotPureSgr;
-            }
+    // 0: expect ESC, 1: expect '[', 2: inside the parameter string
+    let mut st = 0u8;
+    let mut p = M_NOPARAMS;
+    let mut cur: u16 = 0;
+    let mut any = false;
+    let mut next_colon = false;
+    let mut i = 0;
+    while i < bytes.len() {
+        if i < len {
             let b = bytes[i];
-            i += 1;
-            if b'0' <= b && b <= b'9' {
+            if st == 0 {
+                if b != 0x1b { return Pure::NotPureSgr; }
+                st = 1;
+            } else if st == 1 {
+                if b != b'[' { return Pure::NotPureSgr; }
+                st = 2;
+                p = M_NOPARAMS;
+                cur = 0;
+                any = false;
+                next_colon = false;
+            } else if b'0' <= b && b <= b'9' {
                 cur = cur.saturating_mul(10).saturating_add((b - b'0') as u16);
                 any = true;
-            } else if b == b';' || b == b':' {
-                if p.n >= MAXP {
-                    return Pure::NotPureSgr;
+            } else if b == b';' || b == b':' || b == b'm' {
+                if b != b'm' || any {
+                    if p.n >= MAXP {
+                        open = true;
+                    } else {
+                        p.vals[p.n] = cur;
+                        p.colon[p.n] = next_colon;
+                        p.n += 1;
+                    }
                 }
-                p.vals[p.n] = cur;
-                p.colon[p.n] = next_colon;
-                p.n += 1;
                 cur = 0;
                 any = true;
                 next_colon = b == b':';
-            } else if b == b'm' {
-                if any {
-                    if p.n >= MAXP {
-                        return Pure::NotPureSgr;
-                    }
-                    p.vals[p.n] = cur;
-                    p.colon[p.n] = next_colon;
-                    p.n += 1;
+                if b == b'm' {
+                    let (ns, cls) = sgr_apply_mode(s, &p, additive);
+                    if cls == Spec::Open { open = true; }
+                    s = ns;
+                    st = 0;
                 }
-                break;
             } else {
                 return Pure::NotPureSgr;
             }
         }
-        let (ns, cls) = if additive { sgr_apply_additive(s, &p) } else { sgr_apply(s, &p) };
-        if cls == Spec::Open {
-            open = true;
-        }
-        s = ns;
+        i += 1;
     }
-    if open {
-        Pure::Open
-    } else {
-        Pure::Ok(s)
+    if st != 0 {
+        return Pure::NotPureSgr;
     }
+    if open { Pure::Open } else { Pure::Ok(s) }
 }
